@@ -9,6 +9,7 @@ use customasm::*;
 pub mod driver;
 
 pub mod corpus;
+pub mod corpus_conf;
 pub mod props;
 pub mod refasm;
 pub mod refparse;
@@ -25,6 +26,10 @@ fn main() {
         std::process::exit(2);
     }
     let id = args[1].clone();
+    if id == "REF-FILE" {
+        debug_ref_file(&args[2]);
+        std::process::exit(0);
+    }
     let mut thorough = std::env::var("VERIF_TIER").map(|t| t == "thorough").unwrap_or(false);
     let mut replay: Option<String> = None;
     let mut i = 2;
@@ -51,6 +56,17 @@ fn main() {
     run::install_quiet_panic_hook();
     rayon::ThreadPoolBuilder::new().stack_size(8 << 20).build_global().expect("thread pool");
 
+    if id == "CORPUS-CONF" {
+        let c = corpus_conf::run(&repo);
+        println!("files={} in_domain={} agreed={} reference_unspecified={} disagreements={}", c.files_total, c.in_domain, c.agreed, c.reference_unspecified, c.disagreements.len());
+        for d in &c.disagreements {
+            println!("  {}", d);
+        }
+        for (k, v) in &c.unspecified_reasons {
+            println!("  unspecified x{}: {}", v, k);
+        }
+        std::process::exit(if c.disagreements.is_empty() { 0 } else { 2 });
+    }
     let Some(prop) = props::find(&id) else {
         eprintln!("unknown property {}", id);
         std::process::exit(2);
@@ -76,4 +92,16 @@ fn main() {
     let wall = t0.elapsed().as_secs_f64();
     let code = stats::finish(&ctx, rep, wall);
     std::process::exit(code);
+}
+
+#[allow(dead_code)]
+pub fn debug_ref_file(path: &str) {
+    let text = std::fs::read_to_string(path).unwrap();
+    match corpus_conf::translate(&text) {
+        None => println!("not translatable"),
+        Some(p) => {
+            println!("{}", p.render());
+            println!("{:?}", match refasm::assemble(&p) { refasm::RefOut::Ok(ok) => format!("OK {}", run::bits_to_hex(&ok.bits)), refasm::RefOut::Error(e) => format!("ERROR {}", e), refasm::RefOut::Unspec(e) => format!("UNSPEC {}", e) });
+        }
+    }
 }
